@@ -187,13 +187,16 @@ def read_log(path):
         return recs
     with open(path, "rb") as f:
         data = f.read()
-    for line in data.split(b"\n"):
+    lines = data.split(b"\n")
+    # the text after the last newline is a record still being written (a reader polling the log while a helper
+    # appends can see part of it): not a record yet
+    for line in lines[:-1]:
         if not line.strip():
             continue
         try:
             r = json.loads(line)
         except Exception:
-            recs.append({"kind": "garbled", "raw": line[:200].decode("latin1")})
+            recs.append({"kind": "garbled", "name": "", "argv": [], "raw": line[:200].decode("latin1")})
             continue
         if "argv" in r:
             r["argv"] = [uh(a) for a in r["argv"]]
